@@ -1390,7 +1390,7 @@ def compile_pattern(compiler, pattern):
             value,
             value=compiler.compile(value).expr,
         )
-    elif value == Symbol("_"):
+    elif isinstance(value, Symbol) and mangle(value) == "_":
         return asty.MatchAs(value)
     elif isinstance(value, Symbol):
         return compiler.scope.assign(asty.MatchAs(value, name=mangle(value)))
@@ -1417,7 +1417,7 @@ def compile_pattern(compiler, pattern):
         ]
         return asty.MatchSequence(value, patterns=patterns)
     elif is_unpack("iterable", value):
-        if value[1] == Symbol("_"):
+        if isinstance(value[1], Symbol) and mangle(value[1]) == "_":
             # `#* _` is the wildcard star pattern, which binds nothing.
             return asty.MatchStar(value, name=None)
         return compiler.scope.assign(
